@@ -43,7 +43,7 @@ func VF_C06_L1_Revocation() {
 	cl := w.connect("cidA", versionLatest)
 	r := vfNewRun(w, cl)
 	// the connection has a token from the start
-	w.mq.event("conn.cidA", "token", []byte(`{"token":{"user":"t0"}}`))
+	w.mq.event("conn.cidA", "token", []byte(`{"token":{"user":"t0"},"tid":"tid1"}`))
 	w.settle()
 	token := `{"user":"t0"}`
 	if indirect {
@@ -102,7 +102,7 @@ func VF_C06_L1_Revocation() {
 				tokN++
 				token = `{"user":"t` + vfItoa(uint64(tokN)) + `"}`
 				zzvf.Note("trigger: token event " + token)
-				w.mq.event("conn.cidA", "token", []byte(`{"token":`+token+`}`))
+				w.mq.event("conn.cidA", "token", []byte(`{"token":`+token+`,"tid":"tid1"}`))
 			case 1:
 				zzvf.Note("trigger: reaccess event")
 				w.mq.event("event.test.model", "reaccess", nil)
